@@ -1104,18 +1104,29 @@ func (a *modFn) expandAlloc(root string, push func(string)) {
 		}
 		return
 	}
-	for i := 0; i < st.NumFields(); i++ {
-		fld := st.Field(i)
-		if !isRefLike(fld.Type()) {
-			continue
-		}
-		if a.fieldOverridden(root, fld.Name()) {
-			continue
-		}
-		for x := range whole {
-			push(extend(x, "."+fld.Name()))
+	// field by field, descending into embedded / nested struct VALUES (`c := *s; c.bins = fresh` where bins belongs
+	// to an embedded struct overrides s.Embedded.bins, not the whole embedded struct)
+	var walk func(st *types.Struct, prefix string, depth int)
+	walk = func(st *types.Struct, prefix string, depth int) {
+		for i := 0; i < st.NumFields(); i++ {
+			fld := st.Field(i)
+			if !isRefLike(fld.Type()) {
+				continue
+			}
+			path := prefix + fld.Name()
+			if a.fieldOverridden(root, path) {
+				continue
+			}
+			if sub, ok := fld.Type().Underlying().(*types.Struct); ok && depth < 3 {
+				walk(sub, path+".", depth+1)
+				continue
+			}
+			for x := range whole {
+				push(extend(x, "."+path))
+			}
 		}
 	}
+	walk(st, "", 0)
 }
 
 // fieldOverridden: some store to root.<field> comes after every whole-struct store to root and
